@@ -62,6 +62,12 @@ MOD_ITEMS = {
     "extern":   dict(src="pub extern \"C\" fn a{n}(deps: %s) -> u32 {{ {n} }}" % ANY, member=True, call="sync"),
     "attrpub": dict(src="#[inline] /** doc */ pub fn a{n}(deps: %s) -> u32 {{ {n} }}" % ANY, member=True, call="sync"),
     "asyncunsafe": dict(src="pub(crate) async unsafe fn a{n}(deps: %s) -> u32 {{ {n} }}" % ANY, member=True, call="asyncunsafe"),
+    "unsafeextern": dict(src="pub unsafe extern \"C\" fn a{n}(deps: %s) -> u32 {{ {n} }}" % ANY, member=True, call="unsafe"),
+    "asyncextern": dict(src="pub async extern \"C\" fn a{n}(deps: %s) -> u32 {{ {n} }}" % ANY, member=True, call=None, compiles=False),
+    "asyncunsafeextern": dict(src="pub async unsafe extern \"C\" fn a{n}(deps: %s) -> u32 {{ {n} }}" % ANY, member=True, call=None, compiles=False),
+    "constunsafe": dict(src="pub const unsafe fn a{n}(deps: %s) -> u32 {{ {n} }}" % ANY, member=True, call=None, compiles=False),
+    "constextern": dict(src="pub const extern \"C\" fn a{n}(deps: %s) -> u32 {{ {n} }}" % ANY, member=True, call=None, compiles=False),
+    "constunsafeextern": dict(src="pub(crate) const unsafe extern \"C\" fn a{n}(deps: %s) -> u32 {{ {n} }}" % ANY, member=True, call=None, compiles=False),
     "const":    dict(src="pub const fn a{n}(deps: %s) -> u32 {{ {n} }}" % ANY, member=True, call=None,
                      compiles=False),  # const fn cannot be a trait method: token view only
     # things that must NOT become trait methods
@@ -82,7 +88,11 @@ MOD_ITEMS = {
 }
 MOD_ITEM_ORDER = ["pub", "priv", "crate", "struct", "super", "async", "mod", "unsafe", "foreign", "in", "macro",
                   "extern", "bodyless", "constblk", "use", "static", "trait", "const",
-                  "pasync", "attrpub", "punsafe", "asyncunsafe", "pextern", "pconst"]
+                  "pasync", "attrpub", "punsafe", "asyncunsafe", "pextern", "pconst",
+                  "unsafeextern", "asyncextern", "asyncunsafeextern", "constunsafe", "constextern", "constunsafeextern"]
+# interplay alphabet for the longest words (one representative per item class)
+MOD_ITEM_CORE = ["pub", "priv", "crate", "struct", "async", "mod", "unsafe", "foreign", "macro", "bodyless", "constblk",
+                 "use", "static", "trait"]
 
 
 def mod_item_src(sym, n, key):
